@@ -30,6 +30,8 @@ CUTOFF = "2025-06-18"
 CUT = (2025, 6, 18)
 YEARS = (1990, 2199)
 SUPPORTED_PINNED = ["2025-06-18", "2025-03-26", "2024-11-05"]
+# a version list an application may pass as supported_versions: library revisions, neighbours of the cut-off, older and newer ones
+CALLER_VERSIONS = ["2025-03-26", "2025-06-18", "2025-06-17", "2025-06-19", "2025-11-25", "2024-01-01", "2031-01-01"]
 VERSIONS = SUPPORTED_PINNED + ["2025-06-17", "2025-06-19"]
 
 
@@ -476,13 +478,21 @@ def _run_handshake(cfg) -> Dict[str, Any]:
     """A real handshake decides the mode: send_initialize_with_client_tracking against the scripted child."""
     from chuk_mcp.protocol.messages.initialize.send_messages import send_initialize_with_client_tracking
 
-    preferred = SUPPORTED_PINNED[cfg["preferred"]]
-    answer = SUPPORTED_PINNED[cfg["answer"]]
+    preferred = cfg["preferred_s"] if "preferred_s" in cfg else SUPPORTED_PINNED[cfg["preferred"]]
+    answer = cfg["answer_s"] if "answer_s" in cfg else SUPPORTED_PINNED[cfg["answer"]]
+    offered_list = cfg.get("versions")  # the CALLER's supported_versions (None = the library's default list)
+    again = cfg.get("again")  # a second handshake on the same connection settles on this version
+    final = again if again is not None else answer
+    answers = [answer] + ([again] if again is not None else [])
+    hkw: Dict[str, Any] = {} if offered_list is None else {"supported_versions": list(offered_list)}
     viol: List[dict] = []
     cnt: Dict[str, int] = {"sequences": 0, "steps": 0}
-    for op in [o for o in OPS_FULL if o[0] == "b"]:
+    ops = [o for o in OPS_FULL if o[0] == "b"]
+    if cfg.get("ops") == "few":
+        ops = [o for o in ops if o[1] in ("", "R", "RN", "XN", "RXNR")]
+    for op in ops:
         c = _Client()
-        log: Dict[str, Any] = {}
+        log: Dict[str, Any] = {"inits": 0}
 
         def on_stdin(data: bytes, c=c):
             for raw in data.split(b"\n"):
@@ -490,16 +500,22 @@ def _run_handshake(cfg) -> Dict[str, Any]:
                     continue
                 msg = json.loads(raw)
                 if msg.get("method") == "initialize":
-                    log["offered"] = msg["params"]["protocolVersion"]
+                    log.setdefault("offered", msg["params"]["protocolVersion"])
+                    this = answers[min(log["inits"], len(answers) - 1)]
+                    log["inits"] += 1
                     c.proc.stdout.feed((json.dumps({**J, "id": msg["id"], "result": {
-                        "protocolVersion": answer, "capabilities": {}, "serverInfo": {"name": "srv", "version": "1"}}})
+                        "protocolVersion": this, "capabilities": {}, "serverInfo": {"name": "srv", "version": "1"}}})
                         + "\n").encode())
 
         c.proc.on_stdin = on_stdin
 
         async def body(client, c=c, op=op, log=log):
             read, write = client.get_streams()
-            r = await send_initialize_with_client_tracking(read, write, client, timeout=5.0, preferred_version=preferred)
+            r = await send_initialize_with_client_tracking(read, write, client, timeout=5.0, preferred_version=preferred, **hkw)
+            if again is not None:
+                await c.q.settle()
+                c.drain(client)
+                r = await send_initialize_with_client_tracking(read, write, client, timeout=5.0, preferred_version=preferred, **hkw)
             log["negotiated"] = r.protocolVersion
             await c.q.settle()
             log["handshake_io"] = c.drain(client)
@@ -512,20 +528,27 @@ def _run_handshake(cfg) -> Dict[str, Any]:
 
         status, val, errors = c.run(body)
         cnt["sequences"] += 1
-        where = f"handshake preferred={preferred} server-answered={answer} then {op_name(op)}"
+        where = (f"handshake preferred={preferred} server-answered={answers}"
+                 + (f" caller's supported_versions={offered_list}" if offered_list is not None else "") + f" then {op_name(op)}")
         if status != "ok":
             raise core.HarnessError(f"handshake harness did not finish: {status} {core.clean_repr(val)} ({where})")
-        if log.get("offered") != preferred or log["negotiated"] != answer:
+        if log.get("offered") != preferred or log["negotiated"] != final:
             raise core.HarnessError(f"handshake script out of step: offered={log.get('offered')} negotiated={log['negotiated']} ({where})")
         cnt["steps"] += 1
-        if log["pv"] != answer:
-            viol.append({"sig": {"class": "handshake-version-not-tracked"},
-                         "msg": f"client reports {log['pv']!r} after negotiating {answer!r}; {where}"})
-        judge_line(log["line"], answer, log["got"], where, viol, cnt)
+        known = "library-list" if final in SUPPORTED_PINNED else "callers-list-only"
+        if log["pv"] != final:
+            viol.append({"sig": {"class": "handshake-version-not-tracked", "negotiated": known},
+                         "msg": f"client reports {log['pv']!r} after negotiating {final!r}; {where}"})
+        sub: List[dict] = []
+        judge_line(log["line"], final, log["got"], where, sub, cnt)
+        if offered_list is not None or again is not None:
+            for x in sub:
+                x["sig"] = {**x["sig"], "scenario": "handshake", "negotiated": known, "handshakes": len(answers)}
+        viol.extend(sub)
         if errors:
             viol.append({"sig": {"class": "loop-error"}, "msg": f"{errors[:2]}; {where}"})
-    return {"outcome": "handshake:" + ("accepting" if ref_accepts(answer) else "rejecting"), "violations": viol[:12],
-            "counters": cnt, "preferred": preferred, "answer": answer}
+    return {"outcome": "handshake:" + ("accepting" if ref_accepts(final) else "rejecting"), "violations": viol[:12],
+            "counters": cnt, "preferred": preferred, "answer": answers}
 
 
 def _run_forms(cfg) -> Dict[str, Any]:
@@ -608,6 +631,7 @@ class GatedStdin(seams.FakeStdin):
         self._gate_waiters.clear()
 
 
+CONGEST_PADS = [0, 65000, 65536 - 60, 65536, 70000, 200000, 1100000]
 CONGEST_N = [0, 1, 99, 100, 101, 102, 150, 250]
 CONGEST_BATCHES = [["R"], ["RN"], [""], ["R", "XN"]]
 CONGEST_VERSIONS = ["2025-06-18", "2025-06-19", None, "2025-03-26"]
@@ -622,6 +646,7 @@ def _run_congested(cfg) -> Dict[str, Any]:
 
     version = CONGEST_VERSIONS[cfg["version"]]
     n = cfg["n"]
+    pad = CONGEST_PADS[cfg.get("pad", 0)]  # size of the application's messages: around and beyond a pipe buffer (64 KiB)
     batches = [line_for(["b", k], i + 1) for i, k in enumerate(CONGEST_BATCHES[cfg["batches"]])]
     loop = new_loop(horizon=120)
     q = seams.Quiescence(loop)
@@ -639,7 +664,9 @@ def _run_congested(cfg) -> Dict[str, Any]:
 
                 async def app():
                     for k in range(n):
-                        m = {"jsonrpc": "2.0", "id": k, "method": "app/m"} if k % 2 == 0 else create_request("app/m", None, id=k)
+                        prm = {"pad": "p" * pad, "tail": "é"} if pad else None
+                        m = ({"jsonrpc": "2.0", "id": k, "method": "app/m", **({"params": prm} if prm else {})} if k % 2 == 0
+                             else create_request("app/m", prm, id=k))
                         await write.send(m)
 
                 def feed():
@@ -679,7 +706,9 @@ def _run_congested(cfg) -> Dict[str, Any]:
     accept = ref_accepts(version)
     mode = "accepting" if accept else "rejecting"
     queued = "0" if n == 0 else ("below-buffer" if n < 100 else "buffer-or-more")
-    where = (f"version={version!r} application queued {n} messages ({cfg['order']}), child not reading stdin, "
+    if pad:
+        queued += "/large-messages" if pad + 100 > 65536 else "/medium-messages"
+    where = (f"version={version!r} application queued {n} messages of ~{pad + 60} bytes ({cfg['order']}), child not reading stdin, "
              f"batch lines {[json.dumps(b)[:60] for b in batches]}, then the child resumes reading")
     viol: List[dict] = []
 
@@ -695,11 +724,18 @@ def _run_congested(cfg) -> Dict[str, Any]:
     if info["written_while_blocked"]:
         raise core.HarnessError("gate leaked: bytes reached the child's stdin while it was not reading")
     app_ids, rejections, other = [], [], []
-    for raw in info["lines"]:
+    # what the child reads: the byte stream cut at LF (how many writes a line took is the transport's business)
+    stream_bytes = b"".join(info["lines"])
+    if stream_bytes and not stream_bytes.endswith(b"\n"):
+        other.append(b"<unterminated tail> " + stream_bytes[-60:])
+    for raw in stream_bytes.split(b"\n")[:-1]:
         try:
             obj = json.loads(raw.decode("utf-8"))
         except Exception:  # noqa: BLE001
-            other.append(raw[:80])
+            other.append(raw[:60] + b" ... " + raw[-60:] if len(raw) > 130 else raw)
+            continue
+        if isinstance(obj, dict) and obj.get("method") == "app/m" and pad and len((obj.get("params") or {}).get("pad", "")) != pad:
+            other.append(b"<application message with altered payload>")
             continue
         if isinstance(obj, dict) and obj.get("method") == "app/m":
             app_ids.append(obj.get("id"))
@@ -722,7 +758,7 @@ def _run_congested(cfg) -> Dict[str, Any]:
             bad("rejection-count", f"{len(rejections)} -32600 lines reached the child for {len(batches)} rejected batch line(s): {rejections[:2]}",
                 lines=min(len(rejections), 2), batch="empty" if batches == [[]] else "non-empty")
         for r in rejections:
-            why = _valid_rejection(r)
+            why = _valid_rejection(r + b"\n")
             if why:
                 bad("rejection-malformed", f"rejection line is {why}")
         if info["read"]:
@@ -1312,8 +1348,9 @@ def _run_entry(cfg) -> Dict[str, Any]:
     import anyio
     from chuk_mcp.transports.stdio.stdio_client import stdio_client_with_initialize
 
-    preferred = None if cfg["preferred"] is None else SUPPORTED_PINNED[cfg["preferred"]]
-    answer = SUPPORTED_PINNED[cfg["answer"]]
+    preferred = cfg["preferred_s"] if "preferred_s" in cfg else (None if cfg["preferred"] is None else SUPPORTED_PINNED[cfg["preferred"]])
+    answer = cfg["answer_s"] if "answer_s" in cfg else SUPPORTED_PINNED[cfg["answer"]]
+    offered_list = cfg.get("versions")
     kinds = cfg["batch"]
     loop = new_loop(horizon=60)
     q = seams.Quiescence(loop)
@@ -1343,6 +1380,8 @@ def _run_entry(cfg) -> Dict[str, Any]:
     async def main():
         with seams.patched_open_process(lambda cmd, kw: proc) as pp:
             kw = {} if preferred is None else {"preferred_version": preferred}
+            if offered_list is not None:
+                kw["supported_versions"] = list(offered_list)
             async with stdio_client_with_initialize(seams.stdio_params(), timeout=5.0, **kw) as (read, _write, init):
                 log["negotiated"] = init.protocolVersion
                 await q.settle()
@@ -1370,7 +1409,8 @@ def _run_entry(cfg) -> Dict[str, Any]:
     status, val = loop.run_main(main())
     errors = loop.collect_errors()
     loop.abandon()
-    where = (f"stdio_client_with_initialize(preferred_version={preferred!r}); the child reads initialize, sends the batch [{kinds}], "
+    where = (f"stdio_client_with_initialize(preferred_version={preferred!r}"
+             + (f", supported_versions={offered_list}" if offered_list is not None else "") + "); the child reads initialize, sends the batch [{kinds}], "
              f"then answers with version {answer}; afterwards it sends the batch again")
     viol: List[dict] = []
     cnt: Dict[str, int] = {"sequences": 1, "steps": 2, "entry-point-scenarios": 1}
@@ -1396,7 +1436,8 @@ def _run_entry(cfg) -> Dict[str, Any]:
     sub: List[dict] = []
     judge_line(log["late"], answer, log["got"], "batch after the handshake; " + where, sub, cnt)
     for x in sub:
-        x["sig"] = {**x["sig"], "scenario": "stdio_client_with_initialize"}
+        x["sig"] = {**x["sig"], "scenario": "stdio_client_with_initialize",
+                    "negotiated": "library-list" if answer in SUPPORTED_PINNED else "callers-list-only"}
     viol.extend(sub)
     if errors:
         viol.append({"sig": {"class": "loop-error", "scenario": "stdio_client_with_initialize"}, "msg": f"{errors[:2]}; {where}"})
@@ -1550,6 +1591,11 @@ def run(tier: str, only=None) -> core.Result:
 
     # (c) handshake and invalid forms
     cfgs = [{"part": "handshake", "preferred": p, "answer": a} for p in range(3) for a in range(3)]
+    cfgs += [{"part": "handshake", "preferred_s": p, "answer_s": a, "versions": CALLER_VERSIONS, "ops": "few"}
+             for p in CALLER_VERSIONS for a in CALLER_VERSIONS]
+    # a second handshake on the same connection: the batch follows the LAST negotiated version
+    cfgs += [{"part": "handshake", "preferred_s": CALLER_VERSIONS[0], "answer_s": a, "again": b, "versions": CALLER_VERSIONS, "ops": "few"}
+             for a in CALLER_VERSIONS for b in CALLER_VERSIONS if a != b]
     out = explorer.explore(RUN, cfgs)
     sched.absorb(res, "c-real-handshake-then-batch", RUN, out, cfgs)
     sched.debug_pass(res, "c-real-handshake-then-batch", RUN, cfgs, every=4)
@@ -1564,6 +1610,9 @@ def run(tier: str, only=None) -> core.Result:
     cfgs = [{"part": "congested", "version": vi, "n": n, "order": o, "batches": bi}
             for vi in range(len(CONGEST_VERSIONS)) for n in CONGEST_N for o in ("queue-first", "batch-first")
             for bi in range(len(CONGEST_BATCHES))]
+    cfgs += [{"part": "congested", "version": vi, "n": n, "order": o, "batches": bi, "pad": pi}
+             for vi in (0, 1, 3) for n in (1, 2, 3) for o in ("queue-first", "batch-first") for bi in (1, 3)
+             for pi in range(1, len(CONGEST_PADS))]
     out = explorer.explore(RUN, cfgs)
     sched.absorb(res, "d-rejection-while-outgoing-side-congested", RUN, out, cfgs)
     sched.debug_pass(res, "d-rejection-while-outgoing-side-congested", RUN, cfgs, every=5)
@@ -1626,6 +1675,9 @@ def run(tier: str, only=None) -> core.Result:
     samples += [{"part": "k-fallback-backend-member-histories", "index": 0, "case": {"inner": "forms x versions and 3 x 128 sequences, MCP_FORCE_FALLBACK=1"}}]
     ecfgs = [{"part": "entry", "preferred": p, "answer": a, "batch": k}
              for p in (None, 0, 1, 2) for a in range(3) for k in ("RN", "R", "", "XN", "RXNR")]
+    # the application chooses the version list: revisions the library does not list itself, on both sides of the cut-off
+    ecfgs += [{"part": "entry", "preferred_s": p, "answer_s": a, "versions": CALLER_VERSIONS, "batch": k}
+              for p in CALLER_VERSIONS for a in CALLER_VERSIONS for k in ("RN", "", "XR")]
     out = explorer.explore(RUN, ecfgs)
     sched.absorb(res, "j-stdio_client_with_initialize", RUN, out, ecfgs)
     samples += _pick("j-stdio_client_with_initialize", ecfgs)
@@ -1700,10 +1752,13 @@ def run(tier: str, only=None) -> core.Result:
         + "; each sequence runs on a fresh "
         "StdioClient + scripted child, every step (hence every shorter sequence) is judged against the model. canonical state = negotiated "
         "version (the only field _process_message_data consults; streams are drained after every step); states/transitions = distinct "
-        "canonical states / distinct (state, operation) pairs reached. (c) 3x3 real handshakes (preferred x server answer) x 121 batches; "
+        "canonical states / distinct (state, operation) pairs reached. (c) 3x3 real handshakes (preferred x server answer) x 121 batches; 7x7 handshakes with a CALLER-chosen supported_versions list "
+        f"{CALLER_VERSIONS} (revisions the library does not list itself, both sides of the cut-off) and 42 double handshakes on one connection (the batch follows "
+        "the last negotiated version) x 5 batches; "
         "19 invalid member forms x 6 positions x 6 versions. (d) congested outgoing side: child not reading its stdin, application queues "
         f"{CONGEST_N} messages (buffer is 100) before / after {len(CONGEST_BATCHES)} batch-line sets arrive at {CONGEST_VERSIONS}, then the child resumes: "
-        "the child's stdin must hold every application message once, in order, and exactly one -32600 line per rejected batch line. "
+        "the child's stdin must hold every application message once, in order, and exactly one -32600 line per rejected batch line; the same with 1-3 "
+        f"application messages of {CONGEST_PADS[1:]} bytes of payload (around and beyond a 64 KiB pipe buffer); the child's input is judged as a byte stream cut at LF. "
         "(e) the same StdioTransport object (and, recorded only, the same bare StdioClient) entered 2-3 times with every version pair / triple: "
         "every new connection is judged as 'no version negotiated' until its own set_protocol_version. (f) the version changes while a line is being "
         "routed: the server answers initialize inside ONE batch line (3x3 preferred x answered version, 1-3 other members over {N,R}, response at every "
@@ -1718,7 +1773,7 @@ def run(tier: str, only=None) -> core.Result:
         "read each as control): a consumer calls set_protocol_version(v) on receiving a trigger line, a batch follows later in the same read; every "
         "(initial, new) version pair x 7 layouts x 4 batches; judged only when the happens-before is witnessed (a single line lies between trigger and batch, "
         "and at the moment of the call nothing behind the trigger had been buffered, received or written) - then everything behind the trigger follows v. "
-        "(j) the entry point stdio_client_with_initialize(preferred_version in {none, each supported}) against a child that sends a batch after reading "
+        "(j) the entry point stdio_client_with_initialize(preferred_version in {none, each supported}, and 7x7 with the caller-chosen supported_versions list) against a child that sends a batch after reading "
         "`initialize` but before answering it (answer = each supported version) and again after the handshake: the first must not be refused (nothing is "
         "negotiated yet), the second follows the answered version. (k) the invalid-member table (19 forms + 1 coercible incl. wrongly TYPED members: id array / object / boolean, scalar params, error string / array) at 3 versions and "
         "3 x 128 two-step sequences are run again in a child interpreter with MCP_FORCE_FALLBACK=1 (Pydantic-free backend), same oracle. "
